@@ -46,25 +46,29 @@
 //!   6. every other top-level rule appears, in order, with exactly the tokens the transformer produces for that rule
 //!      alone under the same options ("the rest of the sheet is unaffected"; whitespace is not compared except inside
 //!      `selector(...)`);
-//!   7. for an import this oracle makes no claim about (ill-formed per the grammar above, or in an excluded KNOWN
-//!      class) the only demand is: some sequence of complete rules (possibly empty) stands at its place, and all
-//!      following rules still satisfy clauses 1-6 (no unclosed block, nothing swallowed into a junk rule).  Narrowed:
-//!      if the transformer reports a Fatal `unexpected character` warning for such a sheet, nothing but `no panic`
-//!      is demanded (the warning level is documented as "can cause continuous compiling issues, such as mismatched
-//!      braces"); see K4.
+//!   7. for an import that is ill-formed per the grammar above the oracle makes no claim about the import itself; the
+//!      only demand is: some sequence of complete rules (possibly empty) stands at its place, and all following rules
+//!      still satisfy clauses 1-6 (no unclosed block, nothing swallowed into a junk rule).
 //! A panic of the transformer is a finding.
 //!
-//! KNOWN (violations of the property text on the unmodified sources; each is excluded by exactly the stated guard, and
-//! `IMPORTSIGN_STRICT=<id>[,<id>]` -- or `all` -- switches the guard off for `search` and `run`), details in `KNOWN`:
-//!   K1 url(...) spelling under a sign: import dropped silently;   K2 bare `layer` under a sign becomes `@media layer`;
-//!   K3 dotted layer name under a class prefix is rewritten (`a.b` -> `a.p--b`), with and without a sign;
-//!   K4 ill-formed import + Fatal warning: wrapper left unclosed / next rule swallowed;
-//!   K5 `@IMPORT`, `LAYER(`, `SUPPORTS(` (capitals) are not recognised;
-//!   W  (not a violation, strict-only clause) every import but the first rule of the sheet is flagged.
+//! KNOWN: none open on f79f80c (`KNOWN` is empty; the `IMPORTSIGN_STRICT=<id>` switch stays for future entries and
+//! for the strict-only clauses W and F below).  Found by this unit on fb34d58 and repaired since, now ordinary fully
+//! asserted inputs: url(...) spellings under a sign were dropped silently (ebd5d88); a bare `layer` keyword became
+//! `@media layer{` (f79f80c); a dotted layer name was class-rewritten under a class prefix, `a.b` -> `a.p--b`
+//! (3210c50); `@IMPORT` / `LAYER(` / `SUPPORTS(` in capitals were not recognised (de799fa, 0e38f6a).
 //! `IMPORTSIGN_STATS=1` makes `search` print how many imports were asserted in full / by clause 7 only.
 //!
 //! NOT COVERED / NARROWED:
-//!   - "no warning for a well-placed import" is not in the property text; it is available only as strict clause W.
+//!   - F: if the transformer reports a Fatal `unexpected character` warning for a sheet with an ill-formed import,
+//!     clause 7 is NOT asserted and nothing but `no panic` is demanded.  Declared behaviour: that warning level is
+//!     documented as "can cause continuous compiling issues, such as mismatched braces", and the property text says
+//!     nothing about ill-formed imports.  Observed there: `@import "a" supports(x) 123;` leaves `@supports(x){`
+//!     unclosed around the rest of the sheet; `@import "a" foo(bar);` emits the placeholder and then swallows the next
+//!     rule into a junk rule `foo(bar); .b{...}`.  `IMPORTSIGN_STRICT=F` asserts clause 7 all the same (for `run`).
+//!   - W: "no warning for a well-placed import" is not in the property text (it only demands that late imports are
+//!     flagged).  Observed: every import except the very first rule of the sheet is flagged IllegalImportPosition,
+//!     also the second of two leading imports and an import after `@charset` / `@layer x;`.  `IMPORTSIGN_STRICT=W`
+//!     asserts it (e.g. `S|@import "a";^n@import "b";`).
 //!   - whether the placeholder's wrapper order layer > supports > media is the *only* equivalent nesting (the oracle
 //!     demands exactly that order, which is the order the CSS @import grammar defines and the unit tests show);
 //!   - imports nested inside blocks, `url()` modifiers, `<general-enclosed>` media queries (only clause 7);
@@ -84,16 +88,10 @@ const WS: &str = "\u{2423}";
 
 /// (id, input as accepted by `run`, description).  `IMPORTSIGN_STRICT=<id> vxreplay IMPORTSIGN run '<input>'` exits 1
 /// with the observation; without the variable the same input (and the whole search) is clean.
-pub const KNOWN: &[(&str, &str, &str)] = &[
-    ("K1", "S|@import url(foo.css) screen;", "with an import sign an import whose path is written as url(...) -- unquoted or url(\"...\") -- is dropped: no placeholder, no wrapper, no warning (parse_at_rule accepts only a <string>).  Guard: imports in url form under a sign get clause 7 only"),
-    ("K2", "S|@import \"a\" layer;", "with an import sign the bare `layer` keyword is taken for a media type: output `@media layer{/*SIGN a*/}` instead of an anonymous `@layer{...}`, no warning.  Guard: imports with bare `layer` under a sign get clause 7 only"),
-    ("K3", "Sp|@import \"a\" layer(a.b);", "under a class prefix the dotted layer name of an import is rewritten as if `.b` were a class selector: `@layer a.p--b{...}` (with a sign) / `layer(a.p--b)` (without, input `Np|...`); an ordinary `@layer a.b{}` keeps its name.  Guard: imports with a dotted layer name under a class prefix get clause 7 only"),
-    ("K4", "S|@import \"a\" supports(x) 123;^n.b{color:red}", "an ill-formed import whose offending token comes after layer()/supports() leaves the wrapper unclosed: output `@supports(x){.b{color:red}` (the rest of the sheet ends up inside the block); likewise `@import \"a\" foo(bar);` / `LAYER(x)` emit the placeholder and then swallow the next rule into a junk rule `foo(bar); .b{...}`.  A Fatal `unexpected character` warning is reported in all these cases, so this is arguably within the declared behaviour.  Guard: a sheet with a no-claim import AND such a warning is checked for `no panic` only"),
-    ("K5", "S|@IMPORT \"a\";", "at-keyword and function names are matched case-sensitively: `@IMPORT` passes through unrewritten under a sign (no warning); `@import \"a\" LAYER(x);` gives `/*SIGN a*/LAYER(x); <next rule>` with a Fatal warning.  Guard: imports spelling import/layer/supports with capitals under a sign get clause 7 only"),
-    ("W", "S|@import \"a\";^n@import \"b\";", "NOT a violation of the property text (which only demands that late imports are flagged): every import except the very first rule of the sheet is flagged IllegalImportPosition, also the second of two leading imports and an import after `@charset` / `@layer x;`.  Strict clause W asserts `no position warning for a well-placed import`"),
-];
+/// None open on f79f80c (the former K1, K2, K3, K5 are repaired, see the module doc; K4 is the narrowing F).
+pub const KNOWN: &[(&str, &str, &str)] = &[];
 
-const BOUND: &str = "A: 75 paths (ASCII, spaces, %, %2F, */, /*, quotes, backslashes, ?query#frag, relative/absolute/URL, CJK, astral, combining, controls, empty) x 5 spellings (\"..\", '..', url(..), url(\"..\"), url( '..' )) x 2 escape styles x {no condition, layer(a) supports(display: grid) print and (min-width: 10px)} x 4 shapes (alone, before a rule, after @charset, after a rule) x cfg {S, N, Spc}; B: 3 paths x 3 spellings x 5 layer forms x 7 supports forms x 10 media query lists x 4 separator styles x 7 cfgs; C: 18 sheet shapes (top, after imports, after @charset/@layer statements, after rules/@media/@font-face/:host blocks, up to 4 imports, missing final `;`) x 200 LCG-drawn import specifications x 7 cfgs; D: 36 directed ill-formed/exotic sheets x 7 cfgs (clause 7 only); E: 12000 LCG-drawn sheets of 1-6 imports/rules after optional @charset and 0-2 @layer statements, LCG-drawn cfg.  cfgs: S/N = import sign SIGN/none, p class prefix, c class-prefix sign, h convert_host, r rpx_ratio 375.  Excluded KNOWN classes K1-K5 get clause 7 only (see KNOWN)";
+const BOUND: &str = "A: 75 paths (ASCII, spaces, %, %2F, */, /*, quotes, backslashes, ?query#frag, relative/absolute/URL, CJK, astral, combining, controls, empty) x 5 spellings (\"..\", '..', url(..), url(\"..\"), url( '..' )) x 2 escape styles x {no condition, layer(a) supports(display: grid) print and (min-width: 10px)} x 4 shapes (alone, before a rule, after @charset, after a rule) x cfg {S, N, Spc}; B: 3 paths x 3 spellings x 5 layer forms x 7 supports forms x 10 media query lists x 4 separator styles x 7 cfgs; C: 18 sheet shapes (top, after imports, after @charset/@layer statements, after rules/@media/@font-face/:host blocks, up to 4 imports, missing final `;`) x 200 LCG-drawn import specifications x 7 cfgs; D: 38 directed ill-formed/exotic sheets x 7 cfgs (clause 7 only for the ill-formed imports); E: 12000 LCG-drawn sheets of 1-6 imports/rules after optional @charset and 0-2 @layer statements, LCG-drawn cfg.  cfgs: S/N = import sign SIGN/none, p class prefix, c class-prefix sign, h convert_host, r rpx_ratio 375.  Narrowed: a sheet with an ill-formed import AND a Fatal `unexpected character` warning is checked for `no panic` only (F)";
 
 fn strict(id: &str) -> bool {
     static S: std::sync::OnceLock<String> = std::sync::OnceLock::new();
@@ -263,10 +261,6 @@ fn show(v: &[String]) -> String { v.join(" ") }
 struct Import {
     keyword: String,
     path: String,
-    url_form: bool,
-    bare_layer: bool,
-    /// `@import`, `layer` or `supports` spelled with capitals
-    odd_case: bool,
     layer: Option<Vec<String>>,
     supports: Option<Vec<String>>,
     media: Vec<String>,
@@ -317,13 +311,12 @@ fn split_items(css: &str) -> Vec<Item> {
 fn parse_import(text: &str, line: u32) -> Import {
     let mut pi = ParserInput::new(text);
     let mut p = Parser::new(&mut pi);
-    let mut imp = Import { keyword: String::new(), path: String::new(), url_form: false, bare_layer: false, odd_case: false, layer: None, supports: None, media: vec![], rest: vec![], ill_formed: None, line };
-    if let Ok(Token::AtKeyword(k)) = p.next() { imp.keyword = k.to_string(); imp.odd_case |= &**k != "import"; }
+    let mut imp = Import { keyword: String::new(), path: String::new(), layer: None, supports: None, media: vec![], rest: vec![], ill_formed: None, line };
+    if let Ok(Token::AtKeyword(k)) = p.next() { imp.keyword = k.to_string(); }
     match p.next().map(|t| t.clone()) {
         Ok(Token::QuotedString(v)) => imp.path = v.to_string(),
-        Ok(Token::UnquotedUrl(v)) => { imp.path = v.to_string(); imp.url_form = true; }
+        Ok(Token::UnquotedUrl(v)) => imp.path = v.to_string(),
         Ok(Token::Function(n)) if n.eq_ignore_ascii_case("url") => {
-            imp.url_form = true;
             let r = p.parse_nested_block(|q| -> Result<String, ParseError<()>> {
                 let v = q.expect_string()?.to_string();
                 q.expect_exhausted()?;
@@ -337,9 +330,8 @@ fn parse_import(text: &str, line: u32) -> Import {
     // [ layer | layer(<layer-name>) ]?
     let st = p.state();
     match p.next().map(|t| t.clone()) {
-        Ok(Token::Ident(n)) if n.eq_ignore_ascii_case("layer") => { imp.layer = Some(vec![]); imp.bare_layer = true; imp.odd_case |= &*n != "layer"; }
+        Ok(Token::Ident(n)) if n.eq_ignore_ascii_case("layer") => { imp.layer = Some(vec![]); }
         Ok(Token::Function(n)) if n.eq_ignore_ascii_case("layer") => {
-            imp.odd_case |= &*n != "layer";
             let mut v = vec![];
             let _ = p.parse_nested_block(|q| -> Result<(), ParseError<()>> { canon_block(q, false, false, &mut v); Ok(()) });
             let ok = !v.is_empty() && v.iter().enumerate().all(|(i, t)| if i % 2 == 0 { t.starts_with("id:") } else { t == "." }) && v.len() % 2 == 1;
@@ -352,7 +344,6 @@ fn parse_import(text: &str, line: u32) -> Import {
     let st = p.state();
     match p.next().map(|t| t.clone()) {
         Ok(Token::Function(n)) if n.eq_ignore_ascii_case("supports") => {
-            imp.odd_case |= &*n != "supports";
             let mut v = vec![];
             let _ = p.parse_nested_block(|q| -> Result<(), ParseError<()>> { canon_block(q, false, false, &mut v); Ok(()) });
             if v.is_empty() { imp.ill_formed = Some("empty supports()".into()); }
@@ -366,6 +357,9 @@ fn parse_import(text: &str, line: u32) -> Import {
     if v.last().map(|s| s == ";").unwrap_or(false) { v.pop(); }
     if v.iter().any(|t| t == "{" || t == ";" || is_broken(t)) {
         imp.ill_formed.get_or_insert("a block, a second `;` or an unbalanced bracket inside the import".into());
+    } else if v.iter().any(|t| t.eq_ignore_ascii_case("id:layer")) {
+        // Media Queries 4: <media-type> excludes `layer`, so `supports(..) layer` / `layer layer` is not a valid list
+        imp.ill_formed.get_or_insert("`layer` after the layer position (it is not a <media-type>)".into());
     } else if let Some(f) = v.first() {
         if !(f.starts_with("id:") || f == "(") {
             imp.ill_formed.get_or_insert(format!("media query list starts with `{}` (neither an identifier nor `(`)", f));
@@ -379,17 +373,6 @@ fn parse_import(text: &str, line: u32) -> Import {
     if r.iter().any(|t| is_broken(t)) { imp.ill_formed.get_or_insert("an unbalanced bracket inside the import".into()); }
     imp.rest = r;
     imp
-}
-
-/// The KNOWN classes an import falls into under `c` (ids of `KNOWN`).
-fn known_classes(imp: &Import, c: Cfg) -> Vec<&'static str> {
-    let mut v = vec![];
-    if imp.ill_formed.is_some() { return v; }
-    if c.sign && imp.url_form { v.push("K1"); }
-    if c.sign && imp.bare_layer { v.push("K2"); }
-    if c.prefix && imp.layer.as_ref().map(|n| n.len() > 1).unwrap_or(false) { v.push("K3"); }
-    if c.sign && imp.odd_case { v.push("K5"); }
-    v
 }
 
 // ------------------------------------------------------------------------------------------------------------
@@ -547,7 +530,7 @@ fn alone(c: Cfg, text: &str) -> Vec<String> {
 struct Verdict { fail: Option<(String, String)>, notes: Vec<String> }
 
 /// counters for `IMPORTSIGN_STATS=1` (printed to stderr by `search`): imports asserted in full with / without sign,
-/// imports with clause 7 only, sheets without any claim (K4), late imports whose warning was asserted
+/// imports with clause 7 only, sheets without any claim (narrowing F), late imports whose warning was asserted
 static STATS: [std::sync::atomic::AtomicU64; 5] = [std::sync::atomic::AtomicU64::new(0), std::sync::atomic::AtomicU64::new(0), std::sync::atomic::AtomicU64::new(0), std::sync::atomic::AtomicU64::new(0), std::sync::atomic::AtomicU64::new(0)];
 fn stat(i: usize, n: u64) { STATS[i].fetch_add(n, std::sync::atomic::Ordering::Relaxed); }
 
@@ -573,13 +556,9 @@ fn check(c: Cfg, css: &str, intended: Option<&[String]>) -> Verdict {
     for it in &items {
         match &it.kind {
             Kind::Import(imp) => {
-                let ks: Vec<&str> = known_classes(imp, c).into_iter().filter(|id| !strict(id)).collect();
                 if let Some(why) = &imp.ill_formed {
                     notes.push(format!("import on line {} is outside the oracle's grammar ({}): only clause 7", imp.line, why));
                     wants.push(Want::Wild(why.clone()));
-                } else if !ks.is_empty() {
-                    notes.push(format!("import on line {} is in KNOWN class {} (IMPORTSIGN_STRICT={} asserts it): only clause 7", imp.line, ks.join("+"), ks.join(",")));
-                    wants.push(Want::Wild(format!("KNOWN {}", ks.join("+"))));
                 } else {
                     wants.push(Want::Import(k));
                     if c.sign { if late { late_lines.push(imp.line); } else { early_lines.push(imp.line); } }
@@ -590,8 +569,8 @@ fn check(c: Cfg, css: &str, intended: Option<&[String]>) -> Verdict {
             Kind::Other => { late = true; wants.push(Want::Exact(alone(c, &it.text))); }
         }
     }
-    if other > 0 && !strict("K4") && wants.iter().any(|w| matches!(w, Want::Wild(_))) {
-        notes.push("an import without claim (see above) comes with a Fatal `unexpected character` warning (KNOWN K4; IMPORTSIGN_STRICT=K4 asserts clause 7 all the same): nothing but `no panic` is claimed for this sheet".into());
+    if other > 0 && !strict("F") && wants.iter().any(|w| matches!(w, Want::Wild(_))) {
+        notes.push("an ill-formed import (see above) comes with a Fatal `unexpected character` warning (narrowing F; IMPORTSIGN_STRICT=F asserts clause 7 all the same): nothing but `no panic` is claimed for this sheet".into());
         stat(3, 1);
         return Verdict { fail: None, notes };
     }
@@ -730,7 +709,7 @@ fn sheet(shape: &str, r: &mut Lcg, mut next_spec: impl FnMut(&mut Lcg) -> Spec) 
     (lines.join("\n"), paths)
 }
 
-/// family D: (configuration, sheet); imports outside the grammar get clause 7 only
+/// family D: imports outside the grammar get clause 7 only, well-formed ones (`@IMPORT`, `LAYER(..)`, ...) all clauses
 const DIRECTED: &[&str] = &[
     "@import \"a\" supports(x) 123;\n.b{color:red}",
     "@import \"a\" layer(x) 123;\n.b{color:red}",
@@ -749,6 +728,8 @@ const DIRECTED: &[&str] = &[
     "@import \"a\" supports(x:y) layer(z);\n.b{color:red}",
     "@import \"a\" supports(x:y) supports(z:w);\n.b{color:red}",
     "@import \"a\" layer(x) layer(y);\n.b{color:red}",
+    "@import \"a\" supports(x:y) layer;\n.b{color:red}",
+    "@import \"a\" layer layer;\n.b{color:red}",
     "@import \"a\" screen;;\n.b{color:red}",
     "@import \"a\" (min-width:1px;\n.b{color:red}",
     "@import \"a\" supports((x:y);\n.b{color:red}",
@@ -860,7 +841,7 @@ pub fn search() -> Outcome {
     }
     if std::env::var_os("IMPORTSIGN_STATS").is_some() {
         let g = |i: usize| STATS[i].load(std::sync::atomic::Ordering::Relaxed);
-        eprintln!("imports asserted in full: {} with sign, {} without; imports with clause 7 only: {}; sheets without claim (K4): {}; late-import warnings asserted: {}", g(0), g(1), g(2), g(3), g(4));
+        eprintln!("imports asserted in full: {} with sign, {} without; imports with clause 7 only: {}; sheets without claim (F): {}; late-import warnings asserted: {}", g(0), g(1), g(2), g(3), g(4));
     }
     Outcome::none(count, BOUND)
 }
